@@ -222,7 +222,7 @@ structure Environment where
   addrError          : Bool := false   -- net.InterfaceAddrs() fails
   forceBinary        : String := ""    -- --force-iptables-binary
   localAddrs         : List String     -- net.InterfaceAddrs(), in order
-  resolvConf         : List String     -- nameservers of /etc/resolv.conf
+  resolvConf         : Option (List String)  -- nameservers of /etc/resolv.conf; none: the file cannot be read
 
 /-- An interface address: family and value (`Unmap` applied: IPv4-mapped text is IPv4). -/
 def parseLocalAddr (s : String) : Option (Bool × Nat) :=
@@ -272,6 +272,9 @@ def RawConfig.fill (flags : RawConfig) (e : Environment) : Option RawConfig :=
   | some isV6 =>
   let uid := orDefault flags.proxyUID e.envoyUID
   let useResolv := flags.redirectDNS && !flags.captureAllDNS
+  -- "failed to load /etc/resolv.conf" (only consulted for REDIRECT_DNS without CAPTURE_ALL_DNS)
+  if useResolv && e.resolvConf.isNone then none else
+  let servers := e.resolvConf.getD []
   some { flags with
     proxyPort := orDefault flags.proxyPort "15001",
     inboundCapturePort := orDefault flags.inboundCapturePort "15006",
@@ -284,7 +287,7 @@ def RawConfig.fill (flags : RawConfig) (e : Environment) : Option RawConfig :=
     loCidr := e.loCidr.getD "127.0.0.1/32",
     enableIPv6 := isV6,
     forceBinary := e.forceBinary,
-    dnsV4 := if useResolv then (ipsSplitV4V6 e.resolvConf).1 else [],
-    dnsV6 := if useResolv then (ipsSplitV4V6 e.resolvConf).2 else [] }
+    dnsV4 := if useResolv then (ipsSplitV4V6 servers).1 else [],
+    dnsV6 := if useResolv then (ipsSplitV4V6 servers).2 else [] }
 
 end IstioModel.C20
